@@ -436,7 +436,7 @@ NUM_CONFIGS = {"C04": [(1, 12, "double", 0, 0, 0, 4), (1, 8, "double", 1, 0, 0, 
 
 
 # ---- quick tier sizing: with all campaigns of a property sharing one 16-slot pool the quick tier has room for more cases -------------
-_QUICK_FACTOR = {"C01": 3, "C02": 4, "C03": 3, "C06": 3, "C07": 3, "C08": 4, "C09": 3, "C10": 3, "C12": 4, "C13": 3, "C14": 3, "C15": 2, "C16": 4, "C17": 4, "C18": 3, "C20": 3}
+_QUICK_FACTOR = {"C01": 3, "C02": 4, "C03": 3, "C06": 3, "C07": 3, "C08": 4, "C09": 3, "C10": 3, "C12": 4, "C13": 3, "C14": 3, "C15": 2, "C16": 4, "C17": 4, "C18": 3, "C20": 3, "C04": 3, "C05": 3}
 for _p, _f in _QUICK_FACTOR.items():
     for _j in PROPS[_p].jobs:
         _pr, _ca, _sz = _j.quick
